@@ -196,7 +196,9 @@ func calculateChargeSum(charges []*Charge, cur currency.Code) *num.Amount {
 func (m *Charge) round(cur currency.Code) {
 	// Default round to currency, or use base if present
 	e := cur.Def().Subunits
-	if m.Base != nil {
+	if m.Base != nil && m.Base.Exp() > e {
+		// a more precise base allows for a more precise amount,
+		// but never less than the currency.
 		e = m.Base.Exp()
 	}
 	m.Amount = m.Amount.RescaleDown(e)
